@@ -413,6 +413,21 @@ func C15(run *report.Run) {
 			docs = append(docs, doc{"cell:" + cs[i].ID, root, 0})
 		}
 	}
+	// forward / backward references between components are part of the corpus in every tier
+	for _, c := range cells.RefOrderCells() {
+		var root any
+		if json.Unmarshal(c.Spec.YAML(), &root) == nil {
+			docs = append(docs, doc{"cell:" + c.ID, root, 0})
+		}
+	}
+	// a server variable with an enum
+	{
+		var root any
+		src := `{"openapi":"3.0.3","info":{"title":"t","version":"1"},"servers":[{"url":"https://example.com:{port}/{bp}","variables":{"port":{"default":"8443","enum":["8443","443"]},"bp":{"default":"v1","enum":["v1","v2"]}}}],"paths":{"/p":{"get":{"responses":{"default":{"description":"d"}}}}}}`
+		if json.Unmarshal([]byte(src), &root) == nil {
+			docs = append(docs, doc{"base:vars-enum", root, 0})
+		}
+	}
 	// documents with servers (and server variables) are part of the corpus in every tier
 	for _, b := range cells.BaseForms {
 		if len(b.Servers) == 0 {
